@@ -538,7 +538,7 @@ def gen_call(rng, n, style):
         ev['max'] = rng.choice([0, -1, None, 'x', 1, n + 1, 1000000])
     r = rng.random()
     if r < 0.12 or (style == 'nearmiss' and r < 0.4):
-        ev['timeout'] = rng.choice([0, 10, 40, 41, -1, 'x'])
+        ev['timeout'] = rng.choice([0, 10, 40, 41, 60, -1, 'x'])
     if fam == 6:
         ev['lang'] = rng.choice([1, 1, 2])
         ev['rqrc'] = rng.choice([None, None, False, True])
@@ -713,7 +713,7 @@ def judge(run, case, steps, model_events, viol, stats, answer):
 RULE = ('seeded random histories on one real FakedWBEMConnection: use_pull_operations in {None,True,False}, server pull '
         'initially enabled/disabled and toggled between events; 3..14 blocks of: Iter call (7 families, namespaces '
         'existing/other/missing, classes/source instances existing or not, MaxObjectCount 1..n+1,100 and a near-miss stream '
-        '0,-1,None,non-int,10^6; OperationTimeout None,0,10,40,41,-1,non-int; FilterQueryLanguage/FilterQuery/'
+        '0,-1,None,non-int,10^6; OperationTimeout None,0,10,40,41,60,-1,non-int; FilterQueryLanguage/FilterQuery/'
         'ContinueOnError/ReturnQueryResultClass combinations; extra arguments shared with the traditional operation), '
         'bursts of next(), close(), drop + gc.collect(), throw(OSError | CIMError 7/1/4), several generators alive at '
         'once, final drops; repository sizes 0..8 (thorough ..34). Compared per event: result, the 7 flags, the '
@@ -778,6 +778,38 @@ def directed_cases():
                 evs = [dict(call), {'ev': 'next', 'g': 0}, {'ev': 'drop', 'g': 0}, {'ev': 'disable', 'v': not disabled},
                        dict(call, **kw)] + [{'ev': 'next', 'g': 1}] * 4
                 out.append({'use': None, 'disabled': disabled, 'n': 3, 'events': evs, 'style': 'directed'})
+    # invalid MaxObjectCount / OperationTimeout in every mode, in particular where the traditional path is in effect:
+    # use_pull_operations=False, and None on the second call after the connection learned "no pull"
+    base = {'ev': 'call', 'ns': 0, 'cls': 'TST_P', 'src': 'p0', 'extra': 0, 'lang': 0, 'query': False, 'coe': None,
+            'rqrc': None, 'timeout': None, 'max': 2}
+    for fam in range(7):
+        call = dict(base, fam=fam, lang=1 if fam == 6 else 0)
+        for bad in ({'max': 0}, {'max': -1}, {'max': None}, {'max': 'x'}, {'timeout': -1}, {'timeout': 'x'}):
+            for use, disabled in ((False, False), (False, True), (True, False), (None, False)):
+                evs = [dict(call, **bad)] + ([{'ev': 'next', 'g': 0}, {'ev': 'next', 'g': 0}] if fam != 6 else [])
+                out.append({'use': use, 'disabled': disabled, 'n': 3, 'events': evs, 'style': 'directed'})
+            if fam != 6:
+                evs = [dict(call), {'ev': 'next', 'g': 0}, {'ev': 'drop', 'g': 0}, dict(call, **bad),
+                       {'ev': 'next', 'g': 1}, {'ev': 'next', 'g': 1}]
+            else:
+                evs = [dict(call), dict(call, **bad)]
+            out.append({'use': None, 'disabled': True, 'n': 3, 'events': evs, 'style': 'directed'})
+    # a server without pull must say so (CIM_ERR_NOT_SUPPORTED) whatever else is wrong with the Open request: only then
+    # does use_pull_operations=None fall back; arguments the server would reject if it had pull
+    for fam in range(7):
+        call = dict(base, fam=fam, lang=1 if fam == 6 else 0)
+        variants = [{'timeout': 41}, {'timeout': 60}, {'lang': 2, 'query': True}]
+        if fam != 6:
+            variants.append({'lang': 0, 'query': True})
+        for v in variants:
+            for use in (None, True):
+                evs = [dict(call, **v)] + ([{'ev': 'next', 'g': 0}] * 5 if fam != 6 else [])
+                out.append({'use': use, 'disabled': True, 'n': 3, 'events': evs, 'style': 'directed'})
+            if fam != 6:
+                # the same on a connection that already had a successful pull enumeration before the server lost pull
+                evs = [dict(call), {'ev': 'next', 'g': 0}, {'ev': 'drop', 'g': 0}, {'ev': 'disable', 'v': True},
+                       dict(call, **v), {'ev': 'next', 'g': 1}]
+                out.append({'use': None, 'disabled': False, 'n': 3, 'events': evs, 'style': 'directed'})
     return out
 
 
